@@ -29,6 +29,9 @@ LATE = {
  "C13-H": "`element_number` for several parameters at once, in any order, the end point among them",
  "C09-G": "every second two-point case in a fresh session: a system with initial time 1.3 and a driven frame as partner (at rest at the initial time, elsewhere at other times)",
  "C27-H": "the lattice point typed as integers is projected too",
+ "C20-G": "TimeGrid.tla LongRuns: late initial times (a day, an hour, in ticks of 1e-3) where (t1 - t0) / dt is off by many ulps",
+ "C20-H": "two iterations over one solution alive at the same time (pairs of consecutive records, nested loops)",
+ "C22-H": "a fourth style of the fixed-point maps: the map writes into and returns one persistent output array",
  "C03-E": "in-place histories in C03: every rotation-vector routine is called on one buffer that is overwritten between calls (and on a view that is scaled in place) and must return exactly what it returns for a fresh array",
  "C03-F": "the quaternion tangent maps' derivatives with `normalize=False` (QuatKernel.tla `dTun`, `dTi`); the kernel's large-ratio points are replayed under C03 too",
  "C07-E": "consecutive records of one element at the same configuration with other velocities (lattice records) and `la_c(q, -u)` right after `la_c(q, u)` on Revolute joints",
